@@ -234,10 +234,15 @@ def r1(db, rep, rows, g):
             rep.ok("R1-field-table", key, site_t, "{%d, %d}" % (size, align))
 
 
-def mentions(f, n, names):
+def mentions(f, n, names, depth=0):
+    """does the expression (with single-assignment locals expanded) read one of the named members?"""
     for x in facts.walk(n):
         if x["k"] == "MemberExpr" and x.get("member") in names:
             return True
+        if x["k"] == "DeclRefExpr" and x.get("var") and depth < 4:
+            for v in facts.fn_nodes(f):
+                if v["k"] == "VarDecl" and v.get("var") == x["var"] and v.get("c") and mentions(f, v["c"][0], names, depth + 1):
+                    return True
     return False
 
 
